@@ -21,6 +21,12 @@ notes/reports/C11.md.
 import Hts.Lemmas.Decoders
 import Hts.Lemmas.DecodersIndex
 import Hts.Lemmas.DecodersHeader
+import Hts.Lemmas.DecodersBam
+import Hts.Lemmas.DecodersSam
+import Hts.Lemmas.DecodersCsi
+import Hts.Lemmas.DecodersFai
+import Hts.Lemmas.DecodersBgzf
+import Hts.Props.C07
 namespace Hts.Props.C11
 open Hts.Model.Decoders
 open Hts.Model.Decoders.Outcome (ok err)
@@ -45,8 +51,13 @@ error (repair fixes/C11-2) -/
 theorem parseCigar_total (b : Bytes) : (parseCigar b).isPanic = false := by
   unfold parseCigar
   split
-  · rfl
-  · exact parseOps_total b.length b [] (Nat.le_refl _)
+  · rename_i h1
+    rw [index_of_lt _ b 0 (by omega)]
+    simp only
+    split
+    · rfl
+    · exact parseOpsFrom_total b b.length 0 [] (by omega)
+  · exact parseOpsFrom_total b b.length 0 [] (by omega)
 
 /-! ### CIGAR accessors: safe on EVERY CIGAR (so on every one ParseCigar or a BAM record yields) -/
 
@@ -71,31 +82,32 @@ theorem opString_total (t : Nat) : (opString t).isPanic = false := by
 theorem isValid_total (c : List CigarOp) (length : Int) : (cigarIsValidGo c length).isPanic = false :=
   cigarIsValidGo_total c length
 
-/-- `Cigar.Lengths`, `Record.End`, `Record.Len`, `Record.Bin`, `Cigar.IsValid` (the models C16 proves
-correct on the standard operations) return a value for EVERY CIGAR, including operation types 10..15 -/
-theorem coord_accessors_total (u mu : Bool) (pos : Int) (c : List CigarOp) (length : Int) :
-    (Hts.Model.Coord.cigarLengths c).isSome ∧ (Hts.Model.Coord.recordEnd u pos c).isSome ∧
-    (Hts.Model.Coord.recordLen u pos c).isSome ∧ (Hts.Model.Coord.recordBin u mu pos c).isSome ∧
-    (Hts.Model.Coord.cigarIsValid c length).isSome := by
-  obtain ⟨v1, h1⟩ := Hts.Model.Coord.lengthsLoop_total c 0 0
-  obtain ⟨v2, h2⟩ := Hts.Model.Coord.recordEnd_total u pos c
-  obtain ⟨v3, h3⟩ := Hts.Model.Coord.isValidLoop_total c.length c 0 none 0 length
-  refine ⟨?_, ?_, ?_, ?_, ?_⟩
-  · unfold Hts.Model.Coord.cigarLengths; rw [h1]; rfl
-  · rw [h2]; rfl
-  · unfold Hts.Model.Coord.recordLen; rw [h2]; rfl
-  · unfold Hts.Model.Coord.recordBin; rw [h2]; rfl
-  · unfold Hts.Model.Coord.cigarIsValid; rw [h3]; rfl
+/-- `Cigar.Lengths` and `Record.End` (hence `Len` and `Bin`, which add no partial operation) written with
+`Consumes` as the explicit, bounds-checked table look-up never panic, for EVERY CIGAR including operation
+types 10..15, and they compute exactly what the models C16 reasons about compute (whose `Option` results
+are therefore always `some`) -/
+theorem coord_accessors_total (u : Bool) (pos : Int) (c : List CigarOp) :
+    (lengthsGo 0 0 c).isPanic = false ∧ (recordEndGo u pos c).isPanic = false ∧
+    Hts.Model.Coord.cigarLengths c = (match lengthsGo 0 0 c with | ok v => some v | _ => none) ∧
+    Hts.Model.Coord.recordEnd u pos c = (match recordEndGo u pos c with | ok v => some v | _ => none) := by
+  refine ⟨(lengthsGo_eq c 0 0).2, ?_, (lengthsGo_eq c 0 0).1, ?_⟩
+  · unfold recordEndGo
+    split
+    · rfl
+    · exact (endGo_eq c pos pos).2
+  · unfold recordEndGo Hts.Model.Coord.recordEnd
+    split
+    · rfl
+    · exact (endGo_eq c pos pos).1
 
 /-- A_safe for `ParseCigar`: whatever it returns can go through every CIGAR accessor -/
 theorem parseCigar_accessors_safe (b : Bytes) (c : List CigarOp) (_h : parseCigar b = ok c)
-    (u mu : Bool) (pos length : Int) :
+    (u : Bool) (pos length : Int) :
     (cigarIsValidGo c length).isPanic = false ∧ (∀ co ∈ c, (opString co.typ).isPanic = false ∧
       (consumesGo co.typ).isPanic = false) ∧
-    (Hts.Model.Coord.recordEnd u pos c).isSome ∧ (Hts.Model.Coord.recordBin u mu pos c).isSome ∧
-    (Hts.Model.Coord.cigarLengths c).isSome :=
-  have hc := coord_accessors_total u mu pos c length
-  ⟨isValid_total c length, fun co _ => ⟨opString_total co.typ, consumes_total co.typ⟩, hc.2.1, hc.2.2.2.1, hc.1⟩
+    (recordEndGo u pos c).isPanic = false ∧ (lengthsGo 0 0 c).isPanic = false :=
+  have hc := coord_accessors_total u pos c
+  ⟨isValid_total c length, fun co _ => ⟨opString_total co.typ, consumes_total co.typ⟩, hc.2.1, hc.1⟩
 
 /-! ### sam.ParseAux (text) -/
 
@@ -201,6 +213,112 @@ theorem headerRefs_invariant (t : RefTable) (hwf : t.wf) (name : Bytes) (same re
   · rw [h]; exact ⟨rfl, fun _ h' => by cases h'⟩
   · rw [h]; exact ⟨rfl, fun _ h' => by cases h'; exact hw⟩
 
+/-! ### BAM record reader (bam.buffer, readCigarOps, newBuffer, Reader.Read) -/
+
+/-- `bam.(*Reader).Read` with every index, slice and `binary.LittleEndian` call of `bam.buffer`,
+`readCigarOps` and the `br.h.Refs()[id]` look-ups explicit computes exactly C05's `decodeBody` (value or
+error) — so it never panics, for every `Omit` mode, header size and record buffer -/
+theorem bamRead_total (om : Hts.Model.Bam.Omit) (nrefs : Nat) (body : List Hts.Model.Bam.Byte) :
+    decodeBodyIdx om nrefs body = liftE (Hts.Model.Bam.decodeBody om nrefs body) ∧
+      (decodeBodyIdx om nrefs body).isPanic = false :=
+  ⟨decodeBodyIdx_eq om nrefs body, decodeBodyIdx_total om nrefs body⟩
+
+/-- `newBuffer`: `make([]byte, size)` and `br.buf[:size]` never panic, for every four size bytes -/
+theorem bamNewBuffer_total (x y z w : Hts.Model.Bam.Byte) : (newBufferIdx x y z w).isPanic = false :=
+  newBufferIdx_total x y z w
+
+/-! ### SAM text (C06's model `Hts.Model.SamText`): no panic outcome is reachable -/
+
+/-- `Record.UnmarshalSAM`: a record or an error for every line, with or without a header, for every
+float-text behaviour — neither `NewCigarOp` nor `Cigar.IsValid`/`Consumes` can panic on the way -/
+theorem unmarshalSAM_total (ft : Hts.Model.SamText.FloatText) (h : Option Hts.Model.SamText.Header)
+    (b : Hts.Model.SamText.Bytes) : Hts.Model.SamText.parseRecord ft h b ≠ .error .panic :=
+  Hts.Model.SamText.parseRecord_ne_panic ft h b
+
+/-- `sam.ParseCigar` and `sam.ParseAux` in C06's value-level model agree with the indexing-level
+theorems above: no panic outcome -/
+theorem samText_parsers_total (ft : Hts.Model.SamText.FloatText) (b : Hts.Model.SamText.Bytes) :
+    Hts.Model.SamText.parseCigar b ≠ .error .panic ∧ Hts.Model.SamText.parseAux ft b ≠ .error .panic :=
+  ⟨Hts.Model.SamText.parseCigar_ne_panic b, Hts.Model.SamText.parseAux_ne_panic ft b⟩
+
+/-- `sam.Reader.Read`, every call over any input after the header, in header mode and in no-header mode
+(LF/CRLF, empty lines, a last line without newline): never the panic outcome -/
+theorem samReader_total (ft : Hts.Model.SamText.FloatText) (h : Hts.Model.SamText.Header)
+    (body : Hts.Model.SamText.Bytes) :
+    (∀ r ∈ Hts.Model.SamText.readAll ft h body, r ≠ .error .panic) ∧
+    (∀ r ∈ Hts.Model.SamText.readAllNoHeader ft body, r ≠ .error .panic) := by
+  constructor
+  · intro r hr
+    unfold Hts.Model.SamText.readAll at hr
+    simp only [List.mem_map] at hr
+    obtain ⟨l, _, rfl⟩ := hr
+    exact Hts.Model.SamText.parseRecord_ne_panic ft _ _
+  · exact Hts.Model.SamText.noHeaderLoop_ne_panic ft _ _
+
+/-- the line handling of `sam.Reader.Read` with its explicit `b[:len(b)-1]`, `b[len(b)-1]`: on a
+delimiter-terminated line it is C06's `stripCR`, and it never panics on what `ReadBytes` can return -/
+theorem samReaderLine_total (b : Bytes) (terminated : Bool) (h : terminated = true → b.getLast? = some 10) :
+    (readerLineIdx b terminated).isPanic = false ∧
+      ∀ line, readerLineIdx (line ++ [10]) true = ok (Hts.Model.SamText.stripCR line) :=
+  ⟨readerLineIdx_total b terminated h, readerLineIdx_terminated⟩
+
+/-! ### header text and binary header (C07's model `Hts.Model.Header`) -/
+
+/-- `Header.UnmarshalText` of ARBITRARY text on a new header never panics (field loops, `hex.Decode` of
+`M5`, `bh.refs[dupID]`, nil maps), for every behaviour of `time`/`net/url` (`Ext`) -/
+theorem headerText_total (E : Hts.Model.Header.Ext) (text : Hts.Model.Header.Bytes) :
+    (Hts.Model.Header.step E {} (.pa text)).res ≠ .panic :=
+  Hts.Props.C07.step_never_panics E {} Hts.Model.Header.winv_empty _
+
+/-- `Header.DecodeBinary` of ARBITRARY bytes on a new header never panics (`lText`, `nRef`, `lName`
+handling of `DecodeBinary`/`readRefRecords`, then `AddReference`) -/
+theorem headerBinary_total (E : Hts.Model.Header.Ext) (b : Hts.Model.Header.Bytes) :
+    (Hts.Model.Header.step E {} (.de b)).res ≠ .panic :=
+  Hts.Props.C07.step_never_panics E {} Hts.Model.Header.winv_empty _
+
+/-! ### CSI reader (C15's model `Hts.Model.IndexIO`) -/
+
+/-- `csi.ReadFrom` never panics, for every byte string (negative counts, the bin limit test, the geometry
+test `min_shift + 3*depth ≤ 62`) -/
+theorem readCSI_total (bs : Hts.Model.IndexIO.Bytes) : Hts.Model.IndexIO.readCsi bs ≠ .error .panic :=
+  Hts.Model.IndexIO.readCsi_ne_panic bs
+
+/-! ### FAI (C19's model `Hts.Model.Fai`) -/
+
+/-- A_safe for `fai.ReadFrom`: whatever text it accepted, every `File.Seq`/`File.SeqRange` handle on the
+resulting index can be read with any buffer size from any cursor position over any FASTA bytes without
+reaching the division by zero or the negative-slice / zero-progress layout (`Record.isValid`, /repo 38c3f30) -/
+theorem fai_accessors_safe (text : Hts.Model.Fai.Bytes) (raws : List Hts.Model.Fai.RawRecord)
+    (h : Hts.Model.Fai.readFrom text = .ok raws) (name : Hts.Model.Fai.Bytes) (a b : Int)
+    (s : Hts.Model.Fai.Seq)
+    (hs : Hts.Model.Fai.seqWhole (raws.map Hts.Model.Fai.recordOf) name = .ok s ∨
+          Hts.Model.Fai.seqRange (raws.map Hts.Model.Fai.recordOf) name a b = .ok s)
+    (file : Hts.Model.Fai.Bytes) (cur k : Nat) :
+    (Hts.Model.Fai.Seq.read file { s with cur := cur } k).err ≠ .badLayout ∧
+    (Hts.Model.Fai.Seq.read file { s with cur := cur } k).err ≠ .panicDiv := by
+  obtain ⟨hmem, hstop⟩ := Hts.Model.Fai.seq_handle _ name s a b hs
+  simp only [List.mem_map] at hmem
+  obtain ⟨raw, hraw, hrec⟩ := hmem
+  have hsane : s.rcd.Sane := by
+    rw [← hrec]
+    exact Hts.Model.Fai.sane_of_isValid raw (Hts.Model.Fai.readFrom_valid text raws h raw hraw)
+  exact Hts.Model.Fai.seqRead_ok file { s with cur := cur } hsane hstop k
+
+/-! ### BGZF member framing (on C10's model `Hts.Model.BgzfBytes`) -/
+
+/-- `expectedMemberSize`: `h.Extra[i+4]`, `h.Extra[i+5]` are in range after the `i+5 >= len(h.Extra)` test;
+the explicit version equals C10's -/
+theorem bgzfExpectedMemberSize_total (extra : Bytes) :
+    expectedMemberSizeIdx extra = ok (Hts.Model.BgzfBytes.expectedMemberSize (some extra)) :=
+  expectedMemberSizeIdx_eq extra
+
+/-- `buffer.readLimited`: `r.data[:n]` with `n = blockSize - skipped` is inside the `[MaxBlockSize]byte`
+array for every block size a BGZF extra field can announce -/
+theorem bgzfReadLimited_total (extra : Option Bytes) (blockSize skipped : Nat)
+    (h : Hts.Model.BgzfBytes.expectedMemberSize extra = some blockSize) :
+    (readLimitedIdx blockSize skipped).isPanic = false :=
+  readLimitedIdx_total extra blockSize skipped h
+
 /-! ### non-vacuity (tests) -/
 
 /-- a parser instance: decimal digits only -/
@@ -232,7 +350,10 @@ example : parseAuxBam [88, 89, 66, 99, 1] = err := by decide
 example : parseAuxBam [88, 89, 66, 90, 8, 0, 0, 0] = err := by decide
 example : parseAuxBam [88, 0, 90, 1, 0] = err := by decide
 -- CIGAR operation types 11..15 (storable in BAM) go through End/Bin/IsValid
-example : Hts.Model.Coord.recordEnd false 100 [⟨0, 10⟩, ⟨13, 7⟩, ⟨2, 5⟩] = some 115 := by decide
+example : recordEndGo false 100 [⟨0, 10⟩, ⟨13, 7⟩, ⟨2, 5⟩] = ok 115 := by decide
+-- "12": digits without an operation are an error (the scan reaches the end of the text)
+example : parseCigar [49, 50] = err := by decide
+example : parseCigar [42] = ok [] := by decide
 example : cigarIsValidGo [⟨5, 1⟩, ⟨4, 2⟩, ⟨0, 3⟩, ⟨4, 1⟩, ⟨5, 2⟩] 6 = ok true := by decide
 
 example : decodeIdx "itf8.Decode" itf8Width [0xff, 1, 2, 3, 4] = ok true := by decide
